@@ -391,6 +391,16 @@ class Loops:
             s0.pc.append(lt(Lin.atom(k_atom), for_ctx["N"]))
         n_mem = {b: len(ws) for b, ws in s0.mem.items()}
         backs, exits = self._run_body(body, s0, label, for_ctx)
+        if for_ctx is not None and for_ctx.get("ref") is not None:
+            # traversal through a borrowed iterator: the body itself must not advance it (one element per iteration)
+            r_ = for_ctx["ref"]
+            want = for_ctx["pos0"] + Lin.atom(k_atom) + 1
+            for sb in backs:
+                cur_it = I.read_loc(sb, r_.key, r_.path)
+                if not (isinstance(cur_it, IterV) and self.seq_key(cur_it.seq) == self.seq_key(for_ctx["seq"]) and
+                        solver.entails(sb.pc, flit(eq(cur_it.pos, want)))):
+                    I.unmodelled_at(e, "the loop body advances the iterator it traverses")
+                    break
         rep.inv_lits = list(cands)
         rep.carried = [(a, init.l) for a, init in int_syms]
         for sb in backs:
@@ -761,6 +771,9 @@ class Loops:
             return None
         if k in ("map", "copied", "enumerate"):
             return self.count_of(st, seq[1])
+        if k == "rev":
+            n = self.count_of(st, seq[1])
+            return None if n is None else n - seq[2]
         if k == "custom":
             return Lin.atom(("cnt", ("custom", self.val_key(seq[1]))))
         if k == "map_while":
@@ -835,6 +848,9 @@ class Loops:
             return [(st, Opaque("chunk of symbolic size"))]
         if kind == "copied":
             return self.elem_of(st, seq[1], k, e)
+        if kind == "rev":
+            n = self.count_of(st, seq[1])
+            return self.elem_of(st, seq[1], n - 1 - k, e)
         if kind == "enumerate":
             return [(s, TupV([IntV(k, "usize"), v])) for s, v in self.elem_of(st, seq[1], k, e)]
         if kind == "map":
@@ -916,45 +932,107 @@ class Loops:
             if not isinstance(itv, IterV):
                 I.unmodelled_at(e, f"for loop over {itv!r}")
                 continue
-            N = self.count_of(s, itv.seq)
-            if N is None:
-                I.unmodelled_at(e, f"for loop over sequence without count {itv.seq!r}")
+            outs.extend(self._for_core(e, s, itv, ref, elem_pat, body, loop.get("label")))
+        return outs
+
+    def while_let_next(self, e):
+        """`while let Some(p) = it.next() { body }` (loop { if let Some(p) = it.next() { body } else { break } }):
+        (iterator place expression, element pattern, body) or None"""
+        b = _strip(e["body"])
+        while b["k"] == "Block" and not b["b"]["stmts"] and b["b"]["expr"]:
+            b = _strip(b["b"]["expr"])
+        if b["k"] != "If" or b["cond"]["k"] != "LetExpr" or not b.get("else"):
+            return None
+        c = b["cond"]
+        call = _strip(c["e"])
+        pat = c["pat"]
+        if call["k"] != "Call" or call.get("fn") != "std::iter::Iterator::next" or len(call["args"]) != 1:
+            return None
+        if pat.get("k") != "Variant" or pat.get("variant") != "Some" or len(pat.get("subs") or []) != 1:
+            return None
+        # the else branch must be a bare `break` of this very loop
+        x = _strip(b["else"])
+        while x["k"] in ("Block", "NeverToAny"):
+            if x["k"] == "NeverToAny":
+                x = _strip(x["src"])
                 continue
-            N = N - itv.pos
-            if solver.entails_lit(s.pc, le(N, 0)):
-                # no element: the body is not executed
+            st_, ex_ = x["b"]["stmts"], x["b"]["expr"]
+            if len(st_) == 1 and ex_ is None:
+                x = _strip(st_[0]["e"])
+            elif not st_ and ex_ is not None:
+                x = _strip(ex_)
+            else:
+                return None
+        if x["k"] != "Break" or x.get("value") is not None or x.get("label") != e.get("label"):
+            return None
+        return call["args"][0], pat["subs"][0]["p"], b["then"]
+
+    def while_let_loop(self, e, st):
+        """outcomes when the loop is a traversal of a std sequence through an explicit `next()`, else None"""
+        I = self.I
+        m = self.while_let_next(e)
+        if m is None:
+            return None
+        arg, elem_pat, body = m
+        I.quiet += 1
+        try:
+            probe = I.ev(arg, st.clone())
+        finally:
+            I.quiet -= 1
+        if len(probe) != 1 or probe[0][1] != "val" or not isinstance(probe[0][2], RefV):
+            return None
+        ref = probe[0][2]
+        itv = I.read_loc(probe[0][0], ref.key, ref.path)
+        if not isinstance(itv, IterV) or itv.seq[0] == "custom" or self.count_of(st, itv.seq) is None:
+            return None
+        outs = []
+        for s, kind, r in I.ev(arg, st):
+            if kind != "val":
+                outs.append((s, kind, r))
+                continue
+            outs.extend(self._for_core(e, s, itv, r, elem_pat, body, e.get("label")))
+        return outs
+
+    def _for_core(self, e, s, itv, ref, elem_pat, body, label_):
+        I = self.I
+        outs = []
+        N = self.count_of(s, itv.seq)
+        if N is None:
+            I.unmodelled_at(e, f"for loop over sequence without count {itv.seq!r}")
+            return outs
+        N = N - itv.pos
+        if solver.entails_lit(s.pc, le(N, 0)):
+            # no element: the body is not executed
+            outs.append((s, "val", UNIT))
+            return outs
+        kname = I.fresh("k")
+        katom = ("k", kname)
+        K = Lin.atom(katom)
+        seq = itv.seq
+        pos0 = itv.pos
+
+        def bind(s0, seq=seq, K=K, pos0=pos0, ref=ref, kname=kname):
+            res = []
+            for s1, v in self.elem_of(s0, seq, pos0 + K, e):
+                s1 = s1 if s1 is not s0 else s0.clone()
                 if ref is not None:
-                    pass
-                outs.append((s, "val", UNIT))
-                continue
-            kname = I.fresh("k")
-            katom = ("k", kname)
-            K = Lin.atom(katom)
-            seq = itv.seq
-            pos0 = itv.pos
+                    # `for x in it.by_ref()`: inside the body the underlying iterator has consumed element k
+                    I.write_loc(s1, ref.key, ref.path, IterV(seq, pos0 + K + 1))
+                if isinstance(v, Opaque) and isinstance(elem_pat.get("t"), int):
+                    # an abstract sequence (custom iterator): its k-th item is a symbolic value of the item type
+                    v = I.symbolic(elem_pat["t"], (), (self.seq_key(seq), (pos0 + K).key()))
+                I.bind(s1, elem_pat, v)
+                s1.env[("ghost-elem", kname)] = v
+                for a_, i0_, tinfo_, _ in ctx.get("tile_accs", ()):
+                    sl_ = self._first_slice(v)
+                    if sl_ is not None:
+                        s1.pc.append(le(Lin.atom(a_) - i0_ + sl_.length(), Lin.atom(("len", tinfo_[0]))))
+                res.extend(self.instantiate_forall(s1, seq, pos0 + K))
+            return res
 
-            def bind(s0, seq=seq, K=K, pos0=pos0, ref=ref, kname=kname):
-                res = []
-                for s1, v in self.elem_of(s0, seq, pos0 + K, e):
-                    s1 = s1 if s1 is not s0 else s0.clone()
-                    if ref is not None:
-                        # `for x in it.by_ref()`: inside the body the underlying iterator has consumed element k
-                        I.write_loc(s1, ref.key, ref.path, IterV(seq, pos0 + K + 1))
-                    if isinstance(v, Opaque) and isinstance(elem_pat.get("t"), int):
-                        # an abstract sequence (custom iterator): its k-th item is a symbolic value of the item type
-                        v = I.symbolic(elem_pat["t"], (), (self.seq_key(seq), (pos0 + K).key()))
-                    I.bind(s1, elem_pat, v)
-                    s1.env[("ghost-elem", kname)] = v
-                    for a_, i0_, tinfo_, _ in ctx.get("tile_accs", ()):
-                        sl_ = self._first_slice(v)
-                        if sl_ is not None:
-                            s1.pc.append(le(Lin.atom(a_) - i0_ + sl_.length(), Lin.atom(("len", tinfo_[0]))))
-                    res.extend(self.instantiate_forall(s1, seq, pos0 + K))
-                return res
-
-            ctx = {"k": katom, "N": N, "bind": bind, "body": body, "label": loop.get("label"), "seq": seq, "ref": ref, "pos0": pos0}
-            fake = {"k": "Loop", "label": loop.get("label"), "body": body, "sp": e["sp"], "t": e["t"]}
-            outs.extend(self.loop(fake, s, for_ctx=ctx))
+        ctx = {"k": katom, "N": N, "bind": bind, "body": body, "label": label_, "seq": seq, "ref": ref, "pos0": pos0}
+        fake = {"k": "Loop", "label": label_, "body": body, "sp": e["sp"], "t": e["t"]}
+        outs.extend(self.loop(fake, s, for_ctx=ctx))
         return outs
 
     def instantiate_forall(self, s, seq, idx):
@@ -1215,6 +1293,19 @@ class Loops:
             return []
         return self.elem_of(s, it.seq, it.pos + K, e)
 
+    def _elem_with_base(self, st, seq, k, e):
+        """(state, element of the underlying sequence, element after the map/copied adaptors)"""
+        if seq[0] == "copied":
+            return self._elem_with_base(st, seq[1], k, e)
+        if seq[0] == "map":
+            out = []
+            for s, u, v in self._elem_with_base(st, seq[1], k, e):
+                for s2, kd, r in self.I.apply_fn(s, seq[2], [v], e or {}):
+                    if kd == "val":
+                        out.append((s2, u, r))
+            return out
+        return [(s, v, v) for s, v in self.elem_of(st, seq, k, e)]
+
     def fold(self, e, st, it, init, f):
         """Iterator::fold: summarised like a for loop with one carried accumulator"""
         I = self.I
@@ -1236,13 +1327,16 @@ class Loops:
         # sum over elements that are disjoint views of one buffer: partial sums of (at most) their
         # lengths are bounded by the buffer's length
         tile_base = None
-        if it.seq[0] == "coll" and isinstance(init, IntV) and init.l.is_const() and init.l.c == 0:
-            tile_info = st.tiles.get(it.seq[1].seq)
+        bseq = it.seq
+        while bseq[0] in ("map", "copied"):
+            bseq = bseq[1]
+        if bseq[0] == "coll" and isinstance(init, IntV) and init.l.is_const() and init.l.c == 0 and it.pos.is_const() and it.pos.c == 0:
+            tile_info = st.tiles.get(bseq[1].seq)
             tile_base = tile_info[0] if tile_info else None
         bounded = tile_base is not None
         exact = bool(bounded and tile_info[3])
-        for s1, v in self.elem_of(s, it.seq, it.pos + K, e):
-            sl = self._first_slice(v) if bounded else None
+        for s1, u, v in self._elem_with_base(s, it.seq, it.pos + K, e):
+            sl = self._first_slice(u) if bounded else None
             if bounded and sl is None:
                 bounded = False
             if bounded:
